@@ -179,6 +179,14 @@ def decompress(filename, tmpdir=None, target=None):
         yield filename
         return
 
+    if fmt == 'zip':
+        # An archive that was renamed after compressing still holds its
+        # content under the old name: take the only member then.
+        with zipfile.ZipFile(filename, 'r') as archive:
+            members = archive.namelist()
+        if filebase not in members and len(members) == 1:
+            filebase = members[0]
+
     if target is None:
         tmpfile = tempfile.NamedTemporaryFile(dir=tmpdir, delete=False)
     else:
